@@ -119,6 +119,28 @@ pub fn run(run: &mut Run) -> PResult {
     run.assume("strength order derived from the rules of poker; model self-checked against published class and frequency counts");
 
     super::regress::replay_dir(run, "C01", check_case)?;
+    {
+        let t = poker::tables();
+        let items: Vec<([u32; 5], u16)> = (1..=7462u16).map(|v| (words_of_ci(&t.rep[v as usize]), v)).collect();
+        disturbance_pass(
+            run,
+            &items,
+            &|it| {
+                for e in FIVE_ENTRIES.iter() {
+                    let r = call(e.1, it.0);
+                    if r != Ok(it.1) {
+                        return Err(format!("{} on {} returned {:?}, the strength ordinal is {}", e.0, card::render_hand(&it.0), r, it.1));
+                    }
+                }
+                Ok(())
+            },
+            &|it| {
+                let mut c = hand_json(&it.0);
+                c.as_object_mut().unwrap().insert("entry".into(), json!(FIVE_ENTRIES[0].0));
+                ("C01.value".into(), c, card::render_hand(&it.0))
+            },
+        )?;
+    }
     if !run.is_twin() {
         // ranking must be a function of the hand alone: call sequences over neighbour hands
         super::multi::purity::<5, super::multi::H5>(run, "C01.sequence", super::multi::Mode::Value)?;
@@ -335,6 +357,9 @@ fn pair_check(c1: &[u8; 5], c2: &[u8; 5], p1: usize, p2: usize, perms: &[[u8; 5]
 }
 
 pub fn check_case(clause: &str, case: &Value) -> Result<(), String> {
+    if clause.ends_with(".after_disturbance") {
+        return replay_after_disturbance(case, check_case);
+    }
     let t = poker::tables();
     match clause {
         "C01.value" | "C01.unstable" => {
